@@ -97,6 +97,14 @@ func runChild(o SuperOpts, p *Prop, b Batch, outDir string, idx int, trace bool,
 	cmd.Stdout = lf
 	cmd.Stderr = lf
 	cmd.Env = append(os.Environ(), b.Env...)
+	// scratch files of the child live under out/ and are removed with the child,
+	// also when it is killed (nothing is left in /tmp)
+	tmpDir := base + ".tmp"
+	os.RemoveAll(tmpDir)
+	if os.MkdirAll(tmpDir, 0o700) == nil {
+		cmd.Env = append(cmd.Env, "TMPDIR="+tmpDir)
+		defer os.RemoveAll(tmpDir)
+	}
 	if b.Race {
 		cmd.Env = append(cmd.Env, "GORACE=halt_on_error=0 log_path="+base+".race")
 	}
